@@ -76,7 +76,10 @@ func (r *GraphemeReader) Buffered() int {
 // the total cell width returned; pass <=0 for unlimited. merge is true when the
 // returned text should be merged into the previous cell.
 func (r *GraphemeReader) ReadPrintableBytes(maxWidth int) (string, int, bool, error) {
-	if r.Buffered() == 0 {
+	// A read may return no data and no error; that means "try again", not
+	// "nothing printable" (the caller would then take the next byte for a
+	// control byte).
+	for r.Buffered() == 0 {
 		err := r.fill()
 		if err != nil && r.Buffered() == 0 {
 			return "", 0, false, err
@@ -115,12 +118,10 @@ func (r *GraphemeReader) ReadPrintableBytes(maxWidth int) (string, int, bool, er
 				before := r.Buffered()
 				err := r.fill()
 				runStart = r.start
-				if r.Buffered() == before {
-					if err != nil {
-						return "", 0, false, err
-					}
-					return "", 0, false, io.EOF
+				if r.Buffered() == before && err != nil {
+					return "", 0, false, err
 				}
+				// (an empty read without an error just means: try again)
 				continue
 			}
 			break
@@ -179,7 +180,8 @@ func (r *GraphemeReader) ReadPrintableTokensInto(maxWidth int, dst []GraphemeTok
 			}
 		}
 		if r.Buffered() == 0 {
-			return out, nil
+			// an empty read without an error: try again
+			continue
 		}
 		if !isPrintableByte(r.data[r.start]) {
 			return out, nil
@@ -192,12 +194,10 @@ func (r *GraphemeReader) ReadPrintableTokensInto(maxWidth int, dst []GraphemeTok
 			}
 			before := r.Buffered()
 			err := r.fill()
-			if r.Buffered() == before {
-				if err != nil {
-					return nil, err
-				}
-				return nil, io.EOF
+			if r.Buffered() == before && err != nil {
+				return nil, err
 			}
+			// (an empty read without an error just means: try again)
 			continue
 		}
 
